@@ -54,7 +54,7 @@ def main():
     rows = []
     for pid in ids:
         for m in spec.get(pid, []):
-            if only and m["name"] != only:
+            if only and only not in m["name"]:
                 continue
             d, repo = make_copy()
             try:
